@@ -6,6 +6,9 @@ TECH = "bounded symbolic execution of the real dreye functions on z3-backed nump
 NOTE_COMMON = ("Reals, not floats. Shapes are bounded as stated in the evidence file (contents are fully symbolic). Compiled components are replaced by the contract "
                "stubs listed in DESIGN.md section 3 and in the evidence; a sat model is reported only after it reproduces on the unpatched code; unknown => exit 2.")
 CHECKS = {
+ "C04": ("the real lsq_linear / ReceptorEstimator.fit run on fully symbolic A, targets, bounds, weights, K, baseline through a cvxpy shim whose solve() is a contract stub; "
+         "z3 decides per target row: returned X within bounds, prediction == K(AX+baseline), global optimality of the documented weighted squared error "
+         "(contract instance at an arbitrary competitor), feasibility of the problem handed to the solver, zero error <=> in gamut, and that no exception path is feasible", "4 C04"),
  "C02": ("system_capture / system_relative_capture / capture / relative_capture of a symbolic estimator (symbolic filters, sources, domain, K, baseline, intensities) equal the harness's "
          "trapezoid capture of the mixed spectrum and K(Q+baseline) as polynomial identities; the adaptation mutators give K = 1/(Q+baseline) (or K_old + that) and relative capture 1", "4 C02"),
  "C01": ("every entry of calculate_capture / integral / ReceptorEstimator.capture equals the harness's own trapezoid (or rectangle) sum as a polynomial identity over all "
